@@ -270,7 +270,7 @@ def native_int_check(text):
 
 def run(ctx):
     res = Result()
-    D = 3 if ctx.quick() else 5
+    D = 3 if ctx.quick() else 4          # thorough: up to 7 digit characters (9 were measured at more than 80 minutes: single-task tails)
     tasks = []
     for cname in INT_CLASSES:
         for n in range(1, 2 * D):
